@@ -445,9 +445,10 @@ func (bwu *BaseWorkUnit) MonitorLocalStatus() {
 	// loaded and before the watcher and the reference time stamp above were in place; such a write
 	// produces neither an event nor a newer time stamp later on, so look at the record once now.
 	if fi != nil {
+		wasComplete := IsComplete(bwu.Status().State)
 		if lerr := bwu.Load(); lerr != nil {
 			bwu.w.nc.GetLogger().Error("Error reading %s: %s", statusFile, lerr)
-		} else if IsComplete(bwu.Status().State) {
+		} else if !wasComplete && IsComplete(bwu.Status().State) {
 			return
 		}
 	}
